@@ -24,6 +24,7 @@ def zerrOf : Rs.ZipErr → ZErr
   | .Io .InvalidInput => .io .invalidInput
   | .Io .UnexpectedEof => .io .unexpectedEof
   | .Io .WriteZero => .io .writeZero
+  | .Io .BrokenPipe => .io .brokenPipe
   | .InvalidArchive => .invalidArchive
   | .UnsupportedArchive => .unsupportedArchive
   | .FileNotFound => .fileNotFound
